@@ -11,7 +11,8 @@
 //   FM <a|p> <R> <C> : <cell values>                FixedArray<double,act,R,C>      (sizes of the instantiated list)
 //   FV <a|p> <N> : <cell values>                    FixedArray<double,act,N>
 //   S <a|p> <type> <n> <op>* : <cell values>        SpecialMatrix; type in sq sqc symL symU lo loc up upc b00 b11 b22 b20 b02 b12
-//        cb00 cb11 cb22 cb20 cb02 cb12;  op = d:i0:i1 (submatrix_on_diagonal) | T (.T(), last or before x2) | x2
+//        cb00 cb11 cb22 cb20 cb02 cb12;  op = d:i0:i1 (submatrix_on_diagonal)*, then optionally T (.T()) or x2 (2.0*S);
+//        which (type, a|p, T|x2) combinations are instantiated is fixed in drv_matmul_s*.cpp (others: bad-op)
 //   cell values: one integer per storage cell of the parent, in memory order (padding cells included)
 // At least one operand of a pair must be a plain dense operand (M or V without x2).
 //
@@ -242,8 +243,28 @@ template <bool A, int N, class V> void build_FV1(const Spec& s, V& vis) {
   vis.go(F, D);
 }
 
-// special matrices
-template <class E, bool A, class V> void build_S1(const Spec& s, V& vis) {
+// special matrices.  VAR selects which operand variants are instantiated for an engine (compile time is dominated by
+// the number of distinct operand types): bit 0 = ".T()" allowed, bit 1 = "x2" (expression 2.0*S) allowed.
+template <bool On> struct SVariantT {
+  template <class SM, class V> static void run(SM& cur, const double* pbase, long ncells, long gbase, V& vis) {
+    typename SM::transpose_type t(cur.T());
+    Desc D; describe(t, pbase, ncells, gbase, D); vis.go(t, D);
+  }
+};
+template <> struct SVariantT<false> { template <class SM, class V> static void run(SM&, const double*, long, long, V&) { throw BadOp(); } };
+template <bool On> struct SVariantX2 {
+  template <class SM, class V> static void run(SM& cur, const double* pbase, long ncells, long gbase, V& vis) {
+    Desc D; describe(cur, pbase, ncells, gbase, D); scale2<void>(D); vis.go(2.0 * cur, D);
+  }
+};
+template <> struct SVariantX2<false> { template <class SM, class V> static void run(SM&, const double*, long, long, V&) { throw BadOp(); } };
+
+template <class E, bool A> struct SMat : public SpecialMatrix<double, E, A> {
+  typedef SpecialMatrix<double, E, A> base;
+  typedef SpecialMatrix<double, typename E::transpose_engine, A> transpose_type;
+};
+
+template <class E, bool A, int VAR, class V> void build_S1(const Spec& s, V& vis) {
   const Words& h = s.head;
   long n; if (h.size() < 4 || !to_long(h[3], n) || n < 0) throw BadOp();
   SpecialMatrix<double, E, A> P(n);
@@ -259,18 +280,21 @@ template <class E, bool A, class V> void build_S1(const Spec& s, V& vis) {
   for (; k < h.size() && split2(h[k], 'd', a, b); ++k) { SpecialMatrix<double, E, A> nx(cur.submatrix_on_diagonal(a, b)); cur >>= nx; }
   bool tr = false, x2 = false;
   if (k < h.size() && h[k] == "T") { tr = true; ++k; }
-  if (k < h.size() && h[k] == "x2") { x2 = true; ++k; }
+  else if (k < h.size() && h[k] == "x2") { x2 = true; ++k; }
   if (k != h.size()) throw BadOp();
-  Desc D;
-  if (tr) {
-    SpecialMatrix<double, typename E::transpose_engine, A> t(cur.T());
-    describe(t, pbase, ncells, gbase, D);
-    if (x2) { scale2<void>(D); vis.go(2.0 * t, D); } else vis.go(t, D);
-  } else {
-    describe(cur, pbase, ncells, gbase, D);
-    if (x2) { scale2<void>(D); vis.go(2.0 * cur, D); } else vis.go(cur, D);
-  }
+  if (tr) SVariantT<(VAR & 1) != 0>::run(static_cast<SMat<E, A>&>(cur), pbase, ncells, gbase, vis);
+  else if (x2) SVariantX2<(VAR & 2) != 0>::run(cur, pbase, ncells, gbase, vis);
+  else { Desc D; describe(cur, pbase, ncells, gbase, D); vis.go(cur, D); }
 }
+// dispatch helpers for the group files: S_P = passive only, S_PA = passive and active
+#define MM_COMMA ,
+#define S_P(TAG, ENG, VAR) if (h[2] == TAG) { if (act) throw BadOp(); build_S1<ENG, false, VAR>(s, v); return true; }
+#define S_PA(TAG, ENG, VAR) if (h[2] == TAG) { if (act) build_S1<ENG, true, 0>(s, v); else build_S1<ENG, false, VAR>(s, v); return true; }
+#define S_GROUP_HEAD \
+  const Words& h = s.head; \
+  if (h[0] != "S") return false; \
+  if (h.size() < 4 || (h[1] != "a" && h[1] != "p")) throw BadOp(); \
+  bool act = h[1] == "a";
 
 // ------------------------------------------------------------------ the product and its report
 struct Out { std::string text; };
@@ -447,11 +471,14 @@ struct XVisitor {
 
 // one function per translation unit group; returns false if the spec kind is not handled by this group
 bool build_group_dense(const Spec& s, XVisitor& v);
-bool build_group_fixed(const Spec& s, XVisitor& v);
-bool build_group_sq(const Spec& s, XVisitor& v);
-bool build_group_symtri(const Spec& s, XVisitor& v);
-bool build_group_band_r(const Spec& s, XVisitor& v);
-bool build_group_band_c(const Spec& s, XVisitor& v);
+bool build_group_fixed_p(const Spec& s, XVisitor& v);
+bool build_group_fixed_a(const Spec& s, XVisitor& v);
+bool build_group_s1(const Spec& s, XVisitor& v);
+bool build_group_s2(const Spec& s, XVisitor& v);
+bool build_group_s3(const Spec& s, XVisitor& v);
+bool build_group_s4(const Spec& s, XVisitor& v);
+bool build_group_s5(const Spec& s, XVisitor& v);
+bool build_group_s6(const Spec& s, XVisitor& v);
 
 } // namespace mm
 #endif
